@@ -2,7 +2,7 @@
 from hypothesis import strategies as st
 
 from vlib import intervals as iv
-from vlib.runner import Stats, Violation, sut
+from vlib.runner import Stats, Violation, case_hash, sut
 
 ID = "C10"
 RULE = (
@@ -98,12 +98,100 @@ def run_case(case):
 # ---------------------------------------------------------------------------
 # exhaustive small scope
 
-EXHAUSTIVE_NOTE = "extra phase 'small_scope': flood on every non-overlapping layout with distinct timestamps of <= N events with integer ms edges in [0, G], every labelling over {a,b}, every pulsetime in {0,1,2,3} ms, given in sorted and in reversed order (quick G=5,N=3; thorough G=7,N=4)"
+EXHAUSTIVE_NOTE = "extra phase 'large' (not exhaustive): 25 000-event inputs, sorted and reversed; extra phase 'small_scope': flood on every non-overlapping layout with distinct timestamps of <= N events with integer ms edges in [0, G], every labelling over {a,b}, every pulsetime in {0,1,2,3} ms, given in sorted and in reversed order (quick G=5,N=3; thorough G=7,N=4)"
 
 
 def extra_phases(tier, seed, jobs):
     g, n = (5, 3) if tier == "quick" else (7, 4)
-    return [("small_scope", "phase_small_scope", [{"i": i, "n": jobs, "grid": g, "max_n": n} for i in range(jobs)])]
+    large = [{"n": 25_000, "seed": seed * 31 + k, "reverse": bool(k % 2)} for k in range(2 if tier == "quick" else 8)]
+    return [
+        ("small_scope", "phase_small_scope", [{"i": i, "n": jobs, "grid": g, "max_n": n} for i in range(jobs)]),
+        ("large", "phase_large", large),
+    ]
+
+
+def _large_events(task):
+    """A bucket's worth of events: 2..4 s long, gaps of 1..5 s, now and then a minute; labels in runs."""
+    import random
+
+    rnd = random.Random(task["seed"])
+    evs, t = [], 0
+    label = "a"
+    for _ in range(task["n"]):
+        d = rnd.choice([2000, 3000, 4000])
+        if rnd.random() < 0.3:
+            label = rnd.choice("abc")
+        evs.append({"s": t, "d": d, "l": label})
+        t += d + (60_000 if rnd.random() < 0.02 else rnd.choice([1000, 2000, 3000, 4000, 5000]))
+    return evs[::-1] if task["reverse"] else evs
+
+
+def _check_large(task):
+    """The same claims as run_case with near-linear bookkeeping (run_case compares every event with every output)."""
+    import bisect
+
+    from aw_core.models import Event
+    from aw_transform import flood
+
+    evs, P = _large_events(task), 5000
+    ein = iv.to_events(evs, Event)
+    snap = iv.snapshot(ein)
+    with sut("flood (large input)"):
+        out = flood(ein, pulsetime=P / 1000)
+    if iv.snapshot(ein) != snap:
+        raise Violation(f"flood modified its input ({len(evs)} events)")
+    srt = sorted(evs, key=lambda e: e["s"])
+    expected = [(e["s"], e["s"] + e["d"]) for e in srt]
+    short = []
+    for a, b in zip(srt, srt[1:]):
+        g = b["s"] - (a["s"] + a["d"])
+        if 0 < g <= P:
+            expected.append((a["s"] + a["d"], b["s"]))
+            short.append((a["s"] + a["d"], b["s"]))
+    exp_cover = iv.merge_closed(expected)
+    got = sorted(iv.from_event(o) + (o.data.get("l"),) for o in out)
+    for x, y in zip(got, got[1:]):
+        if y[0] < x[1]:
+            raise Violation(f"flood output overlaps on a {len(evs)}-event input: {x} and {y}")
+    if any(e <= s for s, e, _ in got):
+        raise Violation(f"flood returned a non-positive-length event on a {len(evs)}-event input")
+    got_cover = iv.merge_closed([(s, e) for s, e, _ in got])
+    if got_cover != exp_cover:
+        gc = set(got_cover)
+        missing = [p for p in exp_cover if p not in gc][:3]
+        raise Violation(
+            f"flood on {len(evs)} events (2-4 s long, gaps 1-5 s or 60 s, pulsetime 5 s, {'reversed' if task['reverse'] else 'sorted'} input): covered time differs from input plus short gaps: "
+            f"{len(got_cover)} covered stretches, expected {len(exp_cover)}; first expected stretches not found: {missing}"
+        )
+    by_label = {}
+    for s, e, l in got:
+        by_label.setdefault(l, []).append((s, e))
+    merged = {l: iv.merge_closed(v) for l, v in by_label.items()}
+    starts = {l: [p[0] for p in v] for l, v in merged.items()}
+    for e in srt:
+        m = merged.get(e["l"], [])
+        k = bisect.bisect_right(starts.get(e["l"], []), e["s"]) - 1
+        if k < 0 or not (m[k][0] <= e["s"] and e["s"] + e["d"] <= m[k][1]):
+            raise Violation(f"label {e['l']!r} lost time on a {len(evs)}-event input: {(e['s'], e['s'] + e['d'])} is not inside its outputs")
+    return len(evs), len(short)
+
+
+def phase_large(task):
+    st_ = Stats()
+    try:
+        n, short = _check_large(task)
+    except Violation as v:
+        st_.failure = {"kind": "large", "case": task, "message": v.msg}
+        return st_
+    st_.evals = n
+    st_.classes["events"] = n
+    st_.classes["short_gaps"] = short
+    st_.nontrivial.add(case_hash(task))
+    return st_
+
+
+def replay_large(task):
+    _check_large(task)
 
 
 def phase_small_scope(task):
